@@ -211,9 +211,52 @@ func checkConn(s *stream, al altered, rnd *rand.Rand) {
 		preface = append(preface, pre.SealFrame([]byte{0})...)
 	}
 	data := al.data
-	switch rnd.Intn(3) {
+	switch rnd.Intn(5) {
 	case 0:
 		steps = append(steps, script.Step{Data: data})
+	case 4:
+		// a frame arrives together with the first bytes of the next one, then nothing for a while (read timeout), then the rest
+		for len(data) > 0 {
+			n := len(data)
+			if len(data) >= 2 {
+				if l := int(binary.LittleEndian.Uint16(data[:2])) + 18; l < n {
+					n = l + 1 + rnd.Intn(20)
+					if n > len(data) {
+						n = len(data)
+					}
+				}
+			}
+			steps = append(steps, script.Step{Data: data[:n]})
+			data = data[n:]
+			if len(data) > 0 {
+				steps = append(steps, script.Step{Idle: true})
+				run.Count("connection_cases_idle_periods_inside_the_stream", 1)
+				k := 1 + rnd.Intn(40)
+				if k > len(data) {
+					k = len(data)
+				}
+				steps = append(steps, script.Step{Data: data[:k]})
+				data = data[k:]
+			}
+		}
+	case 3:
+		// the adversary also DELAYS: pieces cut anywhere (inside headers, ciphertext and tags), with periods in which
+		// nothing arrives and the receiver's read times out
+		for len(data) > 0 {
+			n := 1 + rnd.Intn(1200)
+			if rnd.Intn(3) == 0 {
+				n = 1 + rnd.Intn(20)
+			}
+			if n > len(data) {
+				n = len(data)
+			}
+			steps = append(steps, script.Step{Data: data[:n]})
+			data = data[n:]
+			if len(data) > 0 && rnd.Intn(2) == 0 {
+				steps = append(steps, script.Step{Idle: true})
+				run.Count("connection_cases_idle_periods_inside_the_stream", 1)
+			}
+		}
 	case 1:
 		for len(data) > 0 {
 			n := 1 + rnd.Intn(700)
@@ -575,6 +618,7 @@ func main() {
 	farReplays(r, rnd)
 	r.Floor("direct_cases", int(r.Counter("direct_cases")), 5000)
 	r.Floor("connection_cases", int(r.Counter("connection_cases")), 200)
+	r.Floor("connection_cases_idle_periods_inside_the_stream", int(r.Counter("connection_cases_idle_periods_inside_the_stream")), 100)
 	r.Floor("errors_reported", int(r.Counter("errors_reported")), 1000)
 	r.Finish()
 }
